@@ -1296,7 +1296,7 @@ def build_plan(tier, seed):
         pl.names_fixed()
         pl.solo_cfgs()
         pl.pairwise(1 << 30)
-        pl.many_enums(530)        # (more derives in ONE crate make rustc itself superlinear: 1 100 took over 45 min)
+        pl.many_enums(530)
         pl.all_reprs()
         pl.huge_sparse_cfgs()
         pl.raw_idents()
@@ -1318,7 +1318,6 @@ def build_plan(tier, seed):
                         ("i8", list(range(-128, 20)) + [50]), ("i8", [-128] + list(range(-100, 50)) + [127]),
                         ("i8", [-128, -127] + list(range(-10, 128))),
                         ("i16", [10 * k + j - 200 for k in range(40) for j in range(3)]), ("u8", [3 * k + j for k in range(85) for j in range(2)]),
-                        ("i16", list(range(-32768, 10)) + [20, 21]),          # a run of 32 778 values in a two-byte signed type
                         ("i64", list(range(-9223372036854775808, -9223372036854775808 + 3000)))])
     return pl
 
